@@ -19,19 +19,27 @@
        (now and after a crash at this point).
 
    What holds (c02_readable_partial) replaces the discipline by what it is meant to establish:
-   every store call that adds a reference adds it for a sector that is durably written at that
-   moment ([step_ok], clause DMeta).  Under that hypothesis every referenced sector reads back
-   the bytes hashing to its root in every reachable state and after a crash at any point, across
-   prune, grow, shrink and non-forced removal with migration, interleaved writers of equal or
-   different sectors, any cache size, restarts.  The other two clauses of [step_ok]: no explicit
-   RemoveSector / forced removal (the permitted losses: c02_lost_counted), and a freshly
-   reserved slot does not already hold the very bytes of the new sector (stale copy of a pruned
-   sector; without it a migration could move the slot under the writer).
+   every store call that adds a reference adds it for a sector whose upload is complete and
+   durable at that moment ([step_ok], clause DMeta: [settled] = durably written and no writer of
+   it between slot commit and data write).  Under that hypothesis every referenced sector reads
+   back the bytes hashing to its root in every reachable state and after a crash at any point,
+   across prune, grow, shrink and non-forced removal with migration, interleaved writers of equal
+   or different sectors, any cache size, restarts.  The other clauses of [step_ok]: no explicit
+   RemoveSector / forced removal (the permitted losses: c02_lost_counted), and (m) a migration
+   does not move a sector whose upload is in flight (c02_migration_of_in_flight_upload_refuted:
+   a real window of the code, reproduced by the harness).
+   The former clause (b) "a freshly reserved slot does not already hold the very bytes of the
+   new sector" is GONE (work package W): it is violated by ordinary executions (upload, prune,
+   re-upload into the stale slot; Example c02_stale_slot_nonvacuous) and was an artefact of the
+   invariant, which no longer says anything about the bytes under a writer that has not written
+   yet.  On the runs the old hypotheses admitted the new ones hold as well: under the old
+   invariant a slot held by a writer never contained the sector's bytes, so "durable" implied
+   "not in flight" and no migrateSector call could succeed on such a slot (root check).
    The cache is modelled as root -> bytes: callers do not modify buffers obtained from
    ReadSector or passed to Write (RHP2/RHP3 update-sector as patched by
    fixes/C02-update-sector-copy.patch). *)
 From HostdBase Require Import Base.
-From HostdStorage Require Import Model Lemmas Proofs Proofs2 DataModel DataLemmas DataProofs DataProofs2 DataProofs3.
+From HostdStorage Require Import Model Lemmas Proofs Proofs2 DataModel DataLemmas DataProofs DataProofs2 DataProofs3 DataProofs4 StatusModel StatusProofs.
 
 (* what VolumeManager.ReadSector returns *)
 Theorem c02_read_result_is_ReadSector : forall d r,
@@ -125,21 +133,36 @@ Theorem c02_crash_readable_refuted : exists size l r,
 Proof. exact readable_refuted_crash. Qed.
 Print Assumptions c02_crash_readable_refuted.
 
+(* Clause (m) of [step_ok] cannot be dropped, of the code as it is: every step but the migration
+   satisfies [step_ok], the run is calm and follows the handlers' discipline, and a referenced
+   sector that nobody deleted reads back another sector's bytes.  The upload of 7 is handed the
+   slot that still holds 7's bytes (stale copy of a pruned upload); a shrink's migrateSector
+   reads it, finds the right root, moves the sector; the shrink is not completed and the vacated
+   slot goes to sector 8 (written, synced, referenced); the first writer then writes into it.
+   Reproduced on the real VolumeManager (TestVerifC02 case 13, sig
+   migration-of-in-flight-upload-overwrites-new-tenant). *)
+Theorem c02_migration_of_in_flight_upload_refuted : exists size l q,
+  forallb calm l = true /\ disciplined (dtrace (dinit size) l) = true /\
+  steps_ok_but_m (dinit size) l /\
+  refd (md (druns (dinit size) l)) q = true /\ read_result (druns (dinit size) l) q <> Some q.
+Proof. exact migrate_in_flight_refuted. Qed.
+Print Assumptions c02_migration_of_in_flight_upload_refuted.
+
 (* ---- Maintenance cut at its internal steps (DataModel.v, "Finer steps") --------------------
    VolumeManager.RemoveSector is four steps — XRsLocate (vm.mu.Lock, SectorLocation), XRsCommit
    (Store.RemoveSector), XRsZero (the zero write), XRsEnd (fsync, cache drop, unlock) — and
    every other step of the model may run in between, except the ones that need vm.mu while it
    is held ([takes_mu]: a writer's data write, Sync and its pieces, a cache-miss read,
    migrateSector, another RemoveSector, Close).  Sync was already cut (DSyncBegin / DFsync /
-   DClear / DSyncEnd), a writer is DReserve / DWrite; migrateSector runs inside one store
-   transaction (one connection: nothing interleaves with it, so a migrated sector stays one step)
-   and takes vm.mu only for map lookups; shrink = Store.ShrinkVolume then truncate and
-   remove = Store.RemoveVolume then file removal touch only slots the store has just made
-   unreachable (ShrinkVolume / non-forced RemoveVolume refuse occupied slots, held writers'
-   included), so cutting them changes no read.
-   [xstep_ok] = [step_ok] with the explicit deletion ALLOWED (as one step or cut), under two
-   provisos: content number 0 (zeroes) is nobody's root, and no upload of the very sector that
-   is being deleted is in flight when its metadata is removed (refuted otherwise, see below).
+   DClear / DSyncEnd), a writer is DReserve / DWrite; migrateSector and a cache-miss ReadSector
+   are single steps at this granularity and are cut in the second finer layer further down
+   ([ystep]); shrink = Store.ShrinkVolume then truncate and remove = Store.RemoveVolume then file
+   removal touch only slots the store has just made unreachable (ShrinkVolume / non-forced
+   RemoveVolume refuse occupied slots, held writers' included), so cutting them changes no read.
+   [xstep_ok] = [step_ok] with the explicit deletion ALLOWED (as one step or cut), under one
+   proviso: no upload of the very sector that is being deleted is in flight when its metadata
+   is removed (refuted otherwise, see below).  The former proviso "content number 0 (zeroes) is
+   nobody's root" is gone together with clause (b).
    [xlost] is the list of sectors an operator deleted explicitly. *)
 
 (* every step of the finer model keeps the invariant "every referenced sector that was not
@@ -201,7 +224,7 @@ Theorem c02_remove_sector_lock_orders_writer :
 Proof. exact rs_with_lock_blocks_writer. Qed.
 Print Assumptions c02_remove_sector_lock_orders_writer.
 
-(* The second proviso of [xstep_ok] cannot be dropped, of the code as it is: RemoveSector of a
+(* The proviso of [xstep_ok] cannot be dropped, of the code as it is: RemoveSector of a
    sector whose upload is in flight (slot reserved, data not written) releases that slot; another
    sector gets it, is written, synced, referenced; the first writer then writes into it.
    Reproduced on the real VolumeManager (harness sig remove-sector-of-in-flight-upload-overwrites-new-tenant). *)
@@ -212,6 +235,135 @@ Theorem c02_remove_sector_of_in_flight_upload_refuted : exists size l q,
 Proof. exact rs_in_flight_refuted. Qed.
 Print Assumptions c02_remove_sector_of_in_flight_upload_refuted.
 
+(* ---- Second finer layer (work package W; DataModel.v [ystep]) -----------------------------
+   migrateSector is cut at its internal steps — YMgBegin (the store transaction opens: source
+   and target chosen; it holds the ONLY database connection until its commit), YMgRead (vm.mu,
+   file read, cache insert, root check), YMgWrite (vm.mu, write at the target), YMgSync (fsync),
+   YMgCommit (swap, commit) — and so is a cache-miss ReadSector — YRdLocate (SectorLocation),
+   YRdFile (vm.mu, file read), YRdCache (cache insert, return).  While a migration transaction
+   is open no step that makes a store call is enabled ([takes_conn]); the steps that take vm.mu
+   are not enabled while a RemoveSector holds it.  Shrink / RemoveVolume are, at this
+   granularity, sequences of such transactions followed by Store.ShrinkVolume / RemoveVolume
+   (whose own batches are C08's BatchProofs) and the truncation / removal of the file, which
+   touch only slots the store has just deleted.
+   [ystep_ok] = [xstep_ok] plus: the swap is not committed for a sector whose upload is in
+   flight (clause (m) at this granularity), and what a cache-miss read inserts into the cache
+   is what the cache may hold at that moment — which the code does NOT enforce (two refuted
+   theorems below; the first is reproduced on the real VolumeManager). *)
+Theorem c02_only_permitted_losses_finer_partial : forall y o,
+  yinv y -> ystep_ok y o -> yinv (fst (ystep y o)).
+Proof. exact yinv_step. Qed.
+Print Assumptions c02_only_permitted_losses_finer_partial.
+
+(* every interleaving of the internal steps of migrateSector, of cache-miss reads and of
+   RemoveSector with writers, Syncs, prune, crashes: every referenced sector that was not deleted
+   explicitly reads back its bytes, now and after a crash *)
+Theorem c02_readable_finer_partial : forall (size : N) (l : list yop) (r : N),
+  ysteps_ok (yinit size) l ->
+  let y := yruns (yinit size) l in
+  refd (md (xd (yx y))) r = true -> ~ In r (xlost (yx y)) ->
+  read_result (xd (yx y)) r = Some r /\ read_result (dcrash (xd (yx y))) r = Some r.
+Proof. exact readable_yruns. Qed.
+Print Assumptions c02_readable_finer_partial.
+
+(* uninterrupted, the three read steps are the ReadSector step of the coarser model *)
+Theorem c02_read_sector_is_its_steps : forall y t r,
+  ymg y = None -> xmu (yx y) = None -> alookup t (yrd y) = None -> cget r (cache (xd (yx y))) = None ->
+  locate r (md (xd (yx y))) <> None ->
+  xd (yx (yruns y [YRdLocate t r; YRdFile t false; YRdCache t])) = fst (dstep (xd (yx y)) (DRead r false)) /\
+  snd (ystep (yruns y [YRdLocate t r; YRdFile t false]) (YRdCache t)) = snd (dstep (xd (yx y)) (DRead r false)).
+Proof. exact rd_steps_are_read. Qed.
+Print Assumptions c02_read_sector_is_its_steps.
+
+(* The proviso on YRdCache cannot be dropped, of the code as it is.  (1) Between SectorLocation
+   and the file read the sector is migrated (a shrink that then fails) and its old slot is handed
+   to another sector: ReadSector returns the OTHER sector's bytes for the root and caches them
+   under it; the sector is referenced, durably stored at its new location, nobody deleted it.
+   Every step but the cache insert satisfies [ystep_ok]; the run is calm.
+   Reproduced on the real VolumeManager (TestVerifC02Steps, sig
+   read-sector-relocated-serves-other-sectors-bytes). *)
+Theorem c02_read_sector_relocated_refuted : exists size l r,
+  forallb ycalm l = true /\ ysteps_ok_but_rd (yinit size) l /\
+  let y := yruns (yinit size) l in
+  refd (md (xd (yx y))) r = true /\ ~ In r (xlost (yx y)) /\ read_result (xd (yx y)) r <> Some r.
+Proof. exact rd_moved_refuted. Qed.
+Print Assumptions c02_read_sector_relocated_refuted.
+
+(* (2) The sector's upload is in flight: the reader reads what the slot held before, the writer
+   writes and caches the real bytes, the reader's cache insert comes last; the upload completes,
+   is synced and referenced — and the cache serves the old bytes.  Model-level witness: the window
+   between the file read and cache.Add has no call in it that a harness could hold. *)
+Theorem c02_read_sector_of_in_flight_upload_refuted : exists size l r,
+  forallb ycalm l = true /\ ysteps_ok_but_rd (yinit size) l /\
+  let y := yruns (yinit size) l in
+  refd (md (xd (yx y))) r = true /\ ~ In r (xlost (yx y)) /\ read_result (xd (yx y)) r <> Some r.
+Proof. exact rd_in_flight_refuted. Qed.
+Print Assumptions c02_read_sector_of_in_flight_upload_refuted.
+
+(* The lock order of the code as it is: RemoveSector (and ResizeVolume) take vm.mu and then make
+   store calls; MigrateSectors holds the only connection and its callback takes vm.mu.  A state
+   in which a RemoveSector holds vm.mu with a store call still to make while a migration
+   transaction is open and has not finished its vm.mu steps is reachable by a run that meets
+   every hypothesis ... *)
+Theorem c02_lock_order_deadlock_reachable : exists size l,
+  ysteps_ok (yinit size) l /\ deadlocked (yruns (yinit size) l) = true.
+Proof. exact deadlock_reachable. Qed.
+Print Assumptions c02_lock_order_deadlock_reachable.
+
+(* ... and in it neither party can take its next step or any later one (only a crash — the end
+   of the process — leaves the state).  A liveness defect: C02's wording does not mention it,
+   no data is lost, but every writer, Sync and cache-miss read blocks behind vm.mu / the
+   connection until the process is killed.  Reproduced on the real VolumeManager
+   (TestVerifC02Steps, sig remove-sector-and-migration-deadlock). *)
+Theorem c02_lock_order_deadlock_stuck : forall y, deadlocked y = true ->
+  (forall f, ystep y (YMgRead f) = (y, ODBad)) /\ (forall ok, ystep y (YMgWrite ok) = (y, ODBad)) /\
+  (forall ok, ystep y (YMgSync ok) = (y, ODBad)) /\ ystep y YMgCommit = (y, ODBad) /\
+  ystep y (YX XRsCommit) = (y, ODBad) /\
+  (forall ok, snd (ystep y (YX (XRsZero ok))) = ODBad) /\ (forall ok, snd (ystep y (YX (XRsEnd ok))) = ODBad).
+Proof. exact deadlock_stuck. Qed.
+Print Assumptions c02_lock_order_deadlock_stuck.
+
+(* With the repaired lock order (fixes/C02-migrate-lock-order.patch, PROPOSED, not applied:
+   [ystep_p] = [ystep] except that a migration transaction does not open while a RemoveSector is
+   in progress) the deadlock state is not reachable by any sequence of steps whatsoever, and the
+   repaired order only removes behaviours, so c02_readable_finer_partial carries over. *)
+Theorem c02_repaired_lock_order_has_no_deadlock : forall (size : N) (l : list yop),
+  deadlocked (yruns_p (yinit size) l) = false.
+Proof. exact no_deadlock_patched. Qed.
+Print Assumptions c02_repaired_lock_order_has_no_deadlock.
+
+Theorem c02_repaired_lock_order_refines : forall y o,
+  snd (ystep_p y o) <> ODBad -> ystep_p y o = ystep y o.
+Proof. exact ystep_p_refines. Qed.
+Print Assumptions c02_repaired_lock_order_refines.
+
+(* ---- The status claim of a volume (StatusModel.v: volume.SetStatus as used by AddVolume,
+   ResizeVolume, RemoveVolume; /repo 45cdb99) ------------------------------------------------
+   The multi-step maintenance operations above are sound one at a time per volume: two resizes
+   running from a stale size truncate the file below the stored total.  What serialises them is
+   the claim: for every sequence of AddVolume / ResizeVolume / RemoveVolume calls and goroutine
+   ends, a volume is owned by at most one running operation, and by one exactly when its status
+   is creating / resizing / removing ... *)
+Theorem c02_volume_operations_do_not_overlap : forall (l : list sop) (v : N),
+  let s := sruns false sinit l in
+  (owners v s <= 1)%nat /\ (owners v s = 1%nat <-> busy (alookup v (sst s)) = true).
+Proof. exact no_overlap. Qed.
+Print Assumptions c02_volume_operations_do_not_overlap.
+
+(* ... and a ResizeVolume / RemoveVolume issued meanwhile is refused without touching anything *)
+Theorem c02_claim_refused_while_owned : forall (l : list sop) (t v : N),
+  let s := sruns false sinit l in
+  (owners v s >= 1)%nat ->
+  fst (sstep false s (SResize t v)) = s /\ fst (sstep false s (SRemove t v)) = s.
+Proof. exact claim_refused_while_owned. Qed.
+Print Assumptions c02_claim_refused_while_owned.
+
+(* Legacy variant (SetStatus before 45cdb99 returned nil when the volume already had the
+   requested status): two resizes own one volume at the same time.  Fixed in /repo. *)
+Theorem c02_idempotent_status_claim_refuted : exists l v, (owners v (sruns true sinit l) >= 2)%nat.
+Proof. exact legacy_overlap_refuted. Qed.
+Print Assumptions c02_idempotent_status_claim_refuted.
+
 (* non-vacuity: a run that meets the hypotheses, commits a reference, migrates the sector during
    a shrink, crashes, and reads it back *)
 Example c02_nonvacuous :
@@ -219,6 +371,16 @@ Example c02_nonvacuous :
   slot_at (md (druns (dinit 1) demo)) 2 0 = Some (Some 7%N) /\
   read_result (druns (dinit 1) demo) 7 = Some 7%N.
 Proof. exact demo_nonvacuous. Qed.
+
+(* a run the former clause (b) excluded: the re-upload of a pruned sector is handed the very slot
+   that still holds its bytes (and is read while in flight) *)
+Example c02_stale_slot_nonvacuous :
+  steps_ok (dinit 1) demo_stale /\
+  (let d := druns (dinit 1) (firstn 8 demo_stale) in
+   slot_at (md d) 1 1 = Some None /\ content d 1 1 = 7%N) /\
+  refd (md (druns (dinit 1) demo_stale)) 7 = true /\
+  read_result (druns (dinit 1) demo_stale) 7 = Some 7%N.
+Proof. exact demo_stale_nonvacuous. Qed.
 
 (* ... and one at the finer granularity: a RemoveSector parked after its metadata commit while a
    writer of another sector is handed the released slot; a crash at the end *)
@@ -228,3 +390,21 @@ Example c02_fine_nonvacuous :
   xlost x = [7%N] /\ refd (md (xd x)) 8 = true /\ refd (md (xd x)) 9 = true /\
   read_result (xd x) 8 = Some 8%N /\ read_result (xd x) 9 = Some 9%N /\ read_result (xd x) 7 = None.
 Proof. exact xdemo_nonvacuous. Qed.
+
+(* ... and one at the second finer granularity: a shrink's migrateSector cut at its steps, a
+   cache-miss read of the very sector and a Sync interleaved with it, the shrink, a crash *)
+Example c02_finer_nonvacuous :
+  ysteps_ok (yinit 0) ydemo /\
+  let y := yruns (yinit 0) ydemo in
+  refd (md (xd (yx y))) 7 = true /\ slot_at (md (xd (yx y))) 1 0 = Some (Some 7%N) /\
+  slot_at (md (xd (yx y))) 1 1 = None /\ read_result (xd (yx y)) 7 = Some 7%N /\
+  snd (ystep (yruns (yinit 0) (firstn 10 ydemo)) (YX (XD DPrune))) = ODBad.
+Proof. exact ydemo_nonvacuous. Qed.
+
+(* the status claim: refused second resize and removal, accepted after the first finished *)
+Example c02_status_nonvacuous :
+  let s := sruns false sinit [SLoad 1 true; SResize 1 1; SResize 2 1; SRemove 3 1; SFinish 1 false; SRemove 3 1; SResize 4 1; SFinish 3 true]%N in
+  snd (sstep false (sruns false sinit [SLoad 1 true; SResize 1 1]%N) (SResize 2 1)) = SO SErr /\
+  snd (sstep false (sruns false sinit [SLoad 1 true; SResize 1 1]%N) (SRemove 3 1)) = SO SErr /\
+  sst s = [] /\ sown s = [].
+Proof. exact status_demo_nonvacuous. Qed.
